@@ -494,9 +494,15 @@ func (g *gen) genValue(t *ast.Type, depth int) (string, any) {
 		i := g.r.Intn(2000) - 1000
 		return strconv.Itoa(i), i
 	case "Float":
-		if g.chance(0.3) {
+		switch g.r.Intn(6) {
+		case 0:
 			i := g.r.Intn(100)
 			return strconv.Itoa(i), i
+		case 1:
+			// not representable in float32 / needs all 53 bits
+			f := []float64{0.1, 16777217, 3.141592653589793, 1e300, -2.2250738585072014e-308, 123456789.123456789}[g.r.Intn(6)]
+			g.feat["float_needs_double_precision"]++
+			return strconv.FormatFloat(f, 'g', -1, 64), f
 		}
 		f := float64(g.r.Intn(10000)) / 8
 		return strconv.FormatFloat(f, 'f', -1, 64), f
